@@ -235,7 +235,11 @@ fn main() {
 			relay_spec(&kinds_all[v[0]], v[1], v[2] == 1, Decl::AtOwner, NAME_ATS_RELAY[v[3]], ent_sets[v[4]], relay_modes[v[5]], relay_absent[v[6]])
 		}));
 	}
-	let uniform_ents: [[Ent; 5]; 3] = [[Ent::Named; 5], [Ent::Absent; 5], [Ent::WithoutTargetName; 5]];
+	// named class entries of [p/C, p/B, p/A, p/I, p/I0] in this space: everything present, the lowest one / two / three
+	// classes of the chain absent, everything without target name
+	let (en, ea, ew) = (Ent::Named, Ent::Absent, Ent::WithoutTargetName);
+	let uniform_ents_all: [[Ent; 5]; 5] = [[en; 5], [ea, ea, en, en, en], [ea, en, en, en, en], [ea, ea, ea, en, en], [ew; 5]];
+	let uniform_ents = &uniform_ents_all[..ctx.tier.pick(2, 5)];
 	let relay_decls = [Decl::AtOwner, Decl::AboveOwner, Decl::TwoAboveOwner];
 	let relay_kinds = ctx.tier.pick(1, 2);
 	{
@@ -323,7 +327,7 @@ fn main() {
 			"arity_delta_space": "parameter shapes over {equal-primitive, equal-class, erased-to-object}^(1..2) × return {void, equal-class, erased-to-object} × delta {+1, -1, 0} × synthetic × bridge flag × delegate name × delegate owner",
 			"mapping_state_space": format!("{} candidate kinds × {} (level, placement) shapes × {} (delegate owner, name) × A-super 3 × interface {} × name location {:?} × delegate entry {:?} × class entry {:?} × calamus {:?}", kinds.len(), shapes.len(), owner_names.len(), ifaces.len(), NAME_ATS, DELEGATE_ENTRIES, CLASS_ENTRIES, CALAMI),
 			"relay_named_entries_space": format!("bridge in p/D over p/A <- p/B <- p/C <- p/D: 2 candidate kinds × interface p/I on the class 0..3 levels above p/D × p/I extends p/I0 {{no, yes}} × name location {:?} × class entry of [p/C, p/B, p/A, p/I, p/I0] in the named mappings {:?}^5 × calamus {:?} × {} subsets of [p/C, p/B, p/A, p/I, p/I0] without calamus entry (cases that differ only in something about an absent p/I0 are generated once)", NAME_ATS_RELAY, ENTS, relay_modes, relay_absent.len()),
-			"relay_calamus_entries_space": format!("same worlds: {} candidate kinds × interface position 0..3 × p/I0 {{no, yes}} × delegate declared {:?} × name location {:?} × named class entries all {{named, absent, without target name}} × calamus {:?} × all 32 subsets of [p/C, p/B, p/A, p/I, p/I0] without calamus entry", relay_kinds, relay_decls, NAME_ATS_RELAY, CALAMI_RELAY),
+			"relay_calamus_entries_space": format!("same worlds: {} candidate kinds × interface position 0..3 × p/I0 {{no, yes}} × delegate declared {:?} × name location {:?} × named class entries {:?} × calamus {:?} × all 32 subsets of [p/C, p/B, p/A, p/I, p/I0] without calamus entry", relay_kinds, relay_decls, NAME_ATS_RELAY, uniform_ents, CALAMI_RELAY),
 			"two_candidate_space": "mode {same delegate, different delegates, chain} × class of each candidate {A,B,C}² × kind {flagged, unflagged, not synthetic}² × name of first {own, in A, nowhere} × name of second {own, nowhere} × first class absent × delegate already named",
 			"javac_corpus": "the vendored javac-17 corpus (main, main8, main11) as main jar × naming scheme {every synthetic named directly, only ordinary methods with a bridge's signature named, nothing named} × calamus {identity, empty}",
 			"signatures_arity_0_1": sigs01.len(),
